@@ -36,9 +36,22 @@ def fieldNames1 : List String :=
   ["NOTICE", "ORDER", "ANDROID", "trueCount", "NOTE", "nullable", "X", "inStock", "NOTIFY.Sent", "NOT.Q", "NOTE._return"]
 def fieldNameV (voc : Nat) (i : Nat) : String := if voc = 1 then (fieldNames1[i]?).getD "?" else fieldName i
 
-/-- `_` in a string word of the case text stands for a blank (`sa_b` = "a b"; `s` = the empty string) -/
-def unBlank (s : String) : String := s.map fun c => if c = '_' then ' ' else c
-def reBlank (s : String) : String := s.map fun c => if c = ' ' then '_' else c
+/-- `<word>` of a string literal in the case text: `_` = blank, `%hh` = the ASCII character with that hex code -/
+def hexDig (c : Char) : Option Nat :=
+  if c.isDigit then some (c.toNat - '0'.toNat) else if 'a' ≤ c ∧ c ≤ 'f' then some (c.toNat - 'a'.toNat + 10) else none
+def decWordL : List Char → List Char
+  | '%' :: a :: b :: rest =>
+    match hexDig a, hexDig b with
+    | some x, some y => Char.ofNat (16 * x + y) :: decWordL rest
+    | _, _ => '%' :: decWordL (a :: b :: rest)
+  | '_' :: rest => ' ' :: decWordL rest
+  | c :: rest => c :: decWordL rest
+  | [] => []
+def unBlank (s : String) : String := String.ofList (decWordL s.toList)
+def hexChar (n : Nat) : Char := if n < 10 then Char.ofNat ('0'.toNat + n) else Char.ofNat ('a'.toNat + n - 10)
+def reBlank (s : String) : String :=
+  String.ofList (s.toList.flatMap fun c =>
+    if c.isAlphanum then [c] else if c = ' ' then ['_'] else ['%', hexChar (c.toNat / 16), hexChar (c.toNat % 16)])
 
 def parseElem (s : String) : Option Elem :=
   if s = "t" then some (.bool true) else if s = "f" then some (.bool false)
@@ -53,7 +66,8 @@ def showElem : Elem → String
 
 /-- `a` = the empty array, `a<e>^<e>…` = an array of scalars; `o<n>` = `Object {"Speed": Number n}` -/
 def parseVal (s : String) : Option Val :=
-  if s = "t" then some (.bool true) else if s = "f" then some (.bool false)
+  if s = "z" then some .null
+  else if s = "t" then some (.bool true) else if s = "f" then some (.bool false)
   else if s.startsWith "n" then (s.drop 1).toString.toInt?.map .num
   else if s.startsWith "i" then (s.drop 1).toString.toInt?.map .int
   else if s.startsWith "s" then some (.str (unBlank (s.drop 1).toString))
@@ -67,13 +81,16 @@ def showVal : Val → String
   | .num n => s!"n{n}" | .int n => s!"i{n}" | .str s => "s" ++ reBlank s
   | .arr l => "a" ++ "^".intercalate (l.map showElem)
   | .obj n => s!"o{n}"
+  | .null => "z"
 
 def parseField (s : String) : Option Nat :=
   if s.startsWith "F" then (s.drop 1).toString.toNat?.bind fun i => if i < nFields then some i else none else none
 
 def parseCmp (s : String) : Option Cmp :=
   if s = "eq" then some .eq else if s = "ne" then some .ne else if s = "gt" then some .gt
-  else if s = "lt" then some .lt else if s = "ge" then some .ge else if s = "le" then some .le else none
+  else if s = "lt" then some .lt else if s = "ge" then some .ge else if s = "le" then some .le
+  else if s = "co" then some .contains else if s = "nc" then some .notContains else if s = "sw" then some .startsWith
+  else if s = "ew" then some .endsWith else if s = "ma" then some .matches else if s = "in" then some .isIn else none
 
 def parseAtom (s : String) : Option Atom :=
   match s.splitOn "." with
@@ -418,7 +435,7 @@ def oracleCore (iiiFirst : Bool) (c : Case) (hit : Bool) (o : String) : String :
           else if depth != 0 then "fail leaked-frames"
           else if !restored before after depth provable then "fail not-restored"
           else if c.fresh && !c.neg && c.strategy == .dfs && !complete c.kb before c.maxDepth c.goal provable then
-            s!"fail incomplete ms{if c.maxSol > 1 then "N" else "1"} {if hasIntLiteral c.kb then "int-literal" else "plain"}"
+            s!"fail incomplete ms{if c.maxSol > 1 then "N" else "1"} {if hasIntLiteral c.kb then "int-literal" else if !noIntLit c.kb then "optext-literal" else "plain"}"
           else if c.fresh && !c.neg && c.strategy == .dfs && !completeInconsistent nFields c.kb before c.maxDepth c.goal provable then
             "fail incomplete-interference"
           else
